@@ -757,3 +757,52 @@ def _tnames(t):
             out |= _tnames(x)
         return out
     return set()
+
+
+def rule_ow_brecords(cx, rep, port):
+    """the records of the join table are the caller's (for a list table: the very rows of the caller's list): the join map stores
+    them and hands them out, it never changes them in place - no `fields += ...`, element store or mutating method on a record that came
+    from the join iterator, neither while building the map nor later on the stored matches"""
+    from ..idioms import MUTATORS
+    p = cx.port(port)
+    mod = cx.engine_mod(port)
+    classes = [c for c in (p.cls(mod, n_, required=False) for n_ in ('HashJoinMap', 'InnerJoiner', 'LeftJoiner', 'StrictLeftJoiner')) if c is not None]
+    n = 0
+    bad = None
+    for c in classes:
+        for m in [x for x in c.body if isinstance(x, ast.FunctionDef)]:
+            owned = set()
+            # names bound to a record fetched from the join iterator, or to the record component of a stored match
+            for a in ast.walk(m):
+                if isinstance(a, ast.Assign) and len(a.targets) == 1 and isinstance(a.targets[0], ast.Name) and isinstance(a.value, ast.Call) and (call_name(a.value) or '').endswith('get_record'):
+                    owned.add(a.targets[0].id)
+                if isinstance(a, ast.NamedExpr) and isinstance(a.target, ast.Name) and isinstance(a.value, ast.Call) and (call_name(a.value) or '').endswith('get_record'):
+                    owned.add(a.target.id)
+            # sequences of stored matches: `for recs in self.hash_map.values():` ... `for nr, nf, fields in recs:`
+            match_seqs = {l.target.id for l in ast.walk(m) if isinstance(l, ast.For) and isinstance(l.target, ast.Name) and 'hash_map' in node_text(l.iter, 200)}
+            for a in ast.walk(m):
+                if isinstance(a, ast.For) and ('hash_map' in node_text(a.iter, 200) or any(isinstance(x, ast.Name) and x.id in match_seqs for x in ast.walk(a.iter))):
+                    t = a.target
+                    if isinstance(t, (ast.Tuple, ast.List)) and len(t.elts) == 3 and isinstance(t.elts[2], ast.Name):
+                        owned.add(t.elts[2].id)
+            if not owned:
+                continue
+            n += 1
+            for x in ast.walk(m):
+                hit = None
+                if isinstance(x, ast.AugAssign) and isinstance(x.target, ast.Name) and x.target.id in owned and isinstance(x.op, (ast.Add, ast.Mult)):
+                    hit = x
+                if isinstance(x, (ast.Assign, ast.AugAssign)):
+                    for t in (x.targets if isinstance(x, ast.Assign) else [x.target]):
+                        if isinstance(t, ast.Subscript) and isinstance(t.value, ast.Name) and t.value.id in owned:
+                            hit = x
+                if isinstance(x, ast.Call) and isinstance(x.func, ast.Attribute) and isinstance(x.func.value, ast.Name) and x.func.value.id in owned and x.func.attr in MUTATORS:
+                    hit = x
+                if hit is not None and bad is None:
+                    bad = (c, m, hit)
+    if bad:
+        c, m, hit = bad
+        rep.violated('{}.{}'.format(c.name, m.name), hit, '`{}` changes a record of the join table in place: for a list table these are the caller\'s own rows, which a query must leave untouched'.format(node_text(hit, 70)))
+    else:
+        rep.holds('join table records', (p.files[mod], 0), 'records of the join table are stored and handed out, never modified ({} method(s) that hold them)'.format(n))
+    rep.require_count('methods holding join records', n, 1, (p.files[mod], 0))
